@@ -78,6 +78,9 @@ impl<T: 'static> Clone for RawLocalPooledRef<T> {
 // this storage strategy, and the reference does not touch the event afterwards.
 unsafe impl<T: 'static> LocalRef<T> for RawLocalPooledRef<T> {
     unsafe fn release_event(&self) {
+        #[cfg(folo_verif)]
+        crate::verif::release(self.event.as_ptr().addr(), "local_raw_pooled");
+
         #[cfg(debug_assertions)]
         self.core().state.borrow_mut().unregister(self.event);
 
